@@ -267,6 +267,11 @@ func ParseRealtime(content []byte, opts *ParseRealtimeOptions) (*Realtime, error
 		optsCopy.Extension = extensions.NoExtension()
 		opts = &optsCopy
 	}
+	if e, ok := opts.Extension.(extensions.PerMessageExtension); ok {
+		optsCopy := *opts
+		optsCopy.Extension = e.ForMessage()
+		opts = &optsCopy
+	}
 	feedMessage := &gtfsrt.FeedMessage{}
 	if err := proto.Unmarshal(content, feedMessage); err != nil {
 		return nil, fmt.Errorf("failed to parse input as a GTFS Realtime message: %s", err)
